@@ -78,4 +78,8 @@ def capRec (L : ℕ) (D : ℕ → ℕ) (T : ℕ → ℕ → ℕ → ℕ → ℕ 
     (capNext : ℕ → K) (k : ℕ) (b : ℕ) : K :=
   ∑ b' ∈ range (D (k+1)), ∑ i ∈ range L, ∑ o ∈ range L, T k b b' i o * trIn i * trOut o * capNext b'
 
+/-- weight with which index `a` of the influence functional is closed by the trace vectors -/
+def closeWeight (L : ℕ) (Uin Uout : ℕ → ℕ → K) (trIn trOut : ℕ → K) (a : ℕ) : K :=
+  ∑ o ∈ range L, ∑ i ∈ range L, trOut o * trIn i * (Uout o a * Uin a i)
+
 end OQuPyVerif.PT
